@@ -73,12 +73,12 @@ def in_scope(entry):
     return not lib or bool(ws)        # standard, or partnered library;  stand-alone legacy libraries are excluded
 
 
-def known_versions(all_bundled, lib):
-    return sorted(v.split("_")[-1] for v, _, l, _ in all_bundled if l == lib)
-
-
 def vkey(v):
     return tuple(int(x) for x in v.split("."))
+
+
+def known_versions(all_bundled, lib):
+    return sorted((v.split("_")[-1] for v, _, l, _ in all_bundled if l == lib), key=vkey)
 
 
 class Inventory:
@@ -499,7 +499,7 @@ def _work(chunk):
 def run(w: Workload):
     from hed.schema import load_schema, load_schema_version
     w.rule = ("Part A: every bundled standard/partnered schema x {load_schema_version, bundled file} x {warnings on, off}. "
-              "Part B: per schema x fault kind (14 kinds) a seeded sample of the positions where the kind can sit "
+              "Part B: per schema x fault kind (16 kinds) a seeded sample of the positions where the kind can sit "
               "(nodes, '#' nodes, units, unit classes, modifiers, value classes, attribute definitions); one fault per "
               "saved copy, written through the XML tree or the MediaWiki line; a case is distinct by (schema, route, kind, "
               "position, seeded value)")
@@ -511,29 +511,32 @@ def run(w: Workload):
         for how in ("version", "file"):
             w.case(("A", version, how), sample={"schema": version, "via": how})
             n_a += 1
+            inp_a = {"schema": version, "via": how, "path": path}
             try:
                 s = load_schema_version(version) if how == "version" else load_schema(path)
                 on = s.check_compliance(check_for_warnings=True)
                 off = s.check_compliance(check_for_warnings=False)
             except Exception as e:  # noqa: BLE001
-                w.fail("C14.accept.no_error", {"schema": version, "via": how}, "%s: %s" % (type(e).__name__, str(e)[:300]),
-                       "loads and checks")
+                w.fail("C14.accept.no_error", inp_a, "%s: %s" % (type(e).__name__, str(e)[:300]), "loads and checks")
                 continue
             errs = [(i["code"], i.get("ec_schema_tag"), i["message"][:120]) for i in on if i["severity"] == ERROR]
-            w.check(not errs, "C14.accept.no_error", {"schema": version, "via": how}, errs[:5], [])
-            w.check(off == [], "C14.accept.warnings_off_empty", {"schema": version, "via": how},
+            w.check(not errs, "C14.accept.no_error", inp_a, errs[:5], [])
+            w.check(off == [], "C14.accept.warnings_off_empty", inp_a,
                     [(i["code"], i["severity"], i["message"][:100]) for i in off][:5], [])
     w.part("A: released schemas accepted", cases=n_a, exhaustive=True,
            bound="all %d bundled standard and partnered library schemas (stand-alone score_1.0.0/testlib_1.0.2 excluded), "
                  "loaded by version and from the bundled file" % len(scope))
     # ---------------- Part B
-    per_kind = 3 if w.quick else 60
+    per_kind = 3 if w.quick else 120
     work = []
     n_by_kind = Counter()
     meta = {}
     for version, path, lib, ws in scope:
-        s = schema(version)
-        inv = Inventory(version, s)
+        try:
+            s = schema(version)
+            inv = Inventory(version, s)
+        except Exception:       # noqa: BLE001 - already recorded by part A
+            continue
         cases = gen_cases(inv, allb, w.rng, per_kind)
         latest = known_versions(allb, lib)[-1] == inv.number
         if latest and "hedId" in inv.entries["attributes"] and lib in ID_RANGES:
@@ -582,7 +585,11 @@ def run(w: Workload):
         "the text editors of rt/c14_edit.py produce well-formed XML / MediaWiki (checked by C14.seed.check_total)",
     ]
     w.not_covered += [
-        "positions not drawn by the seeded sample (thorough draws 60-180 per schema and kind, not all ~1100-2000 nodes)",
+        "positions not drawn by the seeded sample (thorough draws 120-360 per schema and kind, not all ~1100-2000 nodes)",
+        "value faults on attributes the schema does not declare for that section (e.g. deprecatedFrom / inLibrary / conversionFactor "
+        "in 8.0.0): there the fault is 'undeclared attribute' and only that code is required",
+        "over-reporting: a valid value being flagged (seen: valid deprecatedFrom on a nested library node of score_2.0.0) is outside "
+        "the property and only probed by the two successor-copy controls",
         "faults seeded through the TSV form or by mutating the in-memory schema",
         "'changed hedId' for standard-schema nodes inside a partnered library (previous standard release has no ids) and for "
         "libraries without an id range (testlib)",
@@ -592,10 +599,18 @@ def run(w: Workload):
 
 
 def replay(w: Workload, case: dict):
+    try:
+        _replay(w, case)
+    except Exception as e:      # noqa: BLE001
+        w.fail(case.get("clause", "C14.seed.check_total"), case.get("input"), "replay raised %s: %s" % (type(e).__name__, str(e)[:300]),
+               "replays")
+
+
+def _replay(w, case):
     inp = case["input"]
     if "edits" not in inp:
-        from hed.schema import load_schema_version
-        s = load_schema_version(inp["schema"])
+        from hed.schema import load_schema_version, load_schema
+        s = load_schema(inp["path"]) if inp.get("via") == "file" and inp.get("path") else load_schema_version(inp["schema"])
         on = s.check_compliance(True)
         off = s.check_compliance(False)
         errs = [i["code"] for i in on if i["severity"] == ERROR]
